@@ -97,8 +97,9 @@ type violation struct{ sig, detail string }
 
 // sentTruncate: a Truncate request a leader issued (kept for redelivery).
 type sentTruncate struct {
-	from int
-	req  *proto.TruncateRequest
+	from  int
+	req   *proto.TruncateRequest
+	toInc int // incarnation of the receiving process (a copy in the network reaches that process or nobody)
 }
 
 type cluster struct {
